@@ -18,6 +18,12 @@ import (
 // to the shared store, whole and stepwise flushes, anything — and finally lets the reader scan the lower
 // store. Model lines: `seekb` (snapshots taken) … `seeke` (the answer). The answer is also judged by
 // the window oracle below, independently of the model.
+// noSplit (VERIF_NO_SPLIT=1) switches the stopped scans and the torn-seek cases off: an evaluation aid for a
+// candidate repair of seek-torn-by-write-and-flush that keeps the store's read lock until the lower scan has
+// its snapshot — with such a change a scan cannot be stopped between its two sections at all (the writers
+// of the window would wait for it), so these ops have nothing to stage.
+var noSplit = os.Getenv("VERIF_NO_SPLIT") != ""
+
 type splitSeek struct {
 	reader, hold int
 	sr           seekRange
@@ -67,7 +73,7 @@ func (r *runner) holdNode(id int) int {
 
 func (r *runner) splitBegin(reader int, sr seekRange, async bool) {
 	hold := r.holdNode(reader)
-	if hold < 0 || r.split != nil {
+	if hold < 0 || r.split != nil || noSplit {
 		return
 	}
 	sr.depth = 0
